@@ -879,10 +879,21 @@ class Forged:
     issuer: Optional[bytes] = None                  # encoded certificate the forgery names / pretends as issuer
     genuine_issuer_key: bool = False                # signed with the genuine issuer's private key (mis-issuance, not forgery)
     note: str = ""
+    _canon: Any = None
 
     @property
     def h8(self) -> bytes:
         return hashlib.sha256(self.cert).digest()[-8:]
+
+    @property
+    def canon(self) -> Optional[bytes]:
+        """Encoding of the decoded certificate (what a library that hashes its re-encoding sees); None if undecodable."""
+        if self._canon is None:
+            try:
+                self._canon = encode_cert(decode_cert(self.cert))
+            except Exception:
+                self._canon = b""
+        return self._canon or None
 
 
 def sign_ieee(sk: ecdsa.SigningKey, data: bytes, signer_cert: Optional[bytes], mode: str = "plain") -> tuple:
